@@ -60,7 +60,12 @@ ObsNode(c, o, sall, iall) ==
      head |-> OfHead(c, o.dhead),
      canon |-> [h \in {o.canon[j].h : j \in 1..Len(o.canon)} |-> o.canon[CHOOSE j \in 1..Len(o.canon) : o.canon[j].h = h].id],
      diff |-> Empty, nidx |-> 0,
-     up |-> TRUE, mhead |-> OfHead(c, o.head), ms |-> o.lives, mi |-> o.livei, ph |-> "idle", todo |-> <<>>, why |-> ""]
+     pv |-> Empty, pp |-> o.phead.h # 0, xsv |-> Empty, phead |-> OfHead(c, o.phead),
+     up |-> TRUE, mhead |-> OfHead(c, o.head), ms |-> o.lives, mi |-> o.livei, mphead |-> OfHead(c, o.phead), mp |-> None,
+     ph |-> "idle", todo |-> <<>>, why |-> ""]
+
+(* the preliminary identity tree and the imported snapshot are not observed: carried from the tracked store *)
+WithHidden(nd, s) == [nd EXCEPT !.pv = s.pv, !.pp = s.pp, !.xsv = s.xsv]
 
 (* effect of one OBSERVED durable write on the tracked store *)
 EffectW(c, s, w) ==
@@ -75,11 +80,27 @@ EffectW(c, s, w) ==
       [] w.k = "DelCanon"  -> [s EXCEPT !.canon = Drop(@, {w.h})]
       [] w.k = "Diff"      -> [s EXCEPT !.diff = Put(@, w.h, "")]
       [] w.k = "Index"     -> [s EXCEPT !.nidx = @ + 1]
+      [] w.k = "PCopy"     -> [s EXCEPT !.pv = Over(s.iv, s.pv)]
+      [] w.k = "PfxP"      -> [s EXCEPT !.pp = TRUE]
+      [] w.k = "PCommit"   -> [s EXCEPT !.pv = Put(Drop(@, ToSet(w.del)), w.set[1], w.root)]
+      [] w.k \in {"PPrune", "PRollback"} -> [s EXCEPT !.pv = Drop(@, ToSet(w.del))]
+      [] w.k = "PHead"     -> [s EXCEPT !.phead = BlkById(c, w.id)]
+      [] w.k = "DelPHead"  -> [s EXCEPT !.phead = NoBlock]
+      [] w.k = "SnapImport" -> IF w.set = <<>> THEN s ELSE [s EXCEPT !.xsv = Put(Empty, w.set[1], w.root)]
+      [] w.k = "DropOld" /\ w.tree = "S" /\ Has(s.xsv, w.pfx) -> [s EXCEPT !.xsv = Empty]    \* import target cleared
+      [] w.k = "Switch"    -> [s EXCEPT !.sv = s.xsv, !.iv = s.pv, !.xsv = Empty, !.pv = Empty, !.pp = FALSE,
+                                        !.head = BlkById(c, w.id), !.phead = NoBlock]
       [] OTHER             -> s
 
 (* does the tracked store agree with an observation (inside the observed window)? *)
+StoreDiff(s, o) ==
+    <<s.head.id = o.dhead.id, s.phead.id = o.phead.id, Cardinality(DOMAIN s.sv), o.ns, Cardinality(DOMAIN s.iv), o.ni,
+      {h \in o.lo..o.hi : Has(s.sv, h) # (\E j \in 1..Len(o.svr) : o.svr[j].h = h)},
+      {h \in o.lo..o.hi : Has(s.iv, h) # (\E j \in 1..Len(o.ivr) : o.ivr[j].h = h)},
+      {h \in o.lo..o.hi : Has(s.canon, h) # (\E j \in 1..Len(o.canon) : o.canon[j].h = h)}>>
 StoreAgrees(s, o) ==
     /\ s.head.id = o.dhead.id
+    /\ s.phead.id = o.phead.id
     /\ \A h \in o.lo..o.hi :
           /\ Has(s.sv, h) = (\E j \in 1..Len(o.svr) : o.svr[j].h = h)
           /\ Has(s.iv, h) = (\E j \in 1..Len(o.ivr) : o.ivr[j].h = h)
@@ -90,11 +111,14 @@ StoreAgrees(s, o) ==
     /\ Cardinality(DOMAIN s.sv) = o.ns /\ Cardinality(DOMAIN s.iv) = o.ni
 
 (* macro steps *)
-Expand(nd, m) == IF m.what = "Add" THEN AddSteps(nd, m.b) ELSE ResetSteps(nd, m.to)
-RECURSIVE RunMacros(_, _, _, _)
-RunMacros(nd, ms, w, cr) ==
+BlkFn(c) == [h \in {b.h : b \in ToSet(c.chainNew)} |-> CHOOSE b \in ToSet(c.chainNew) : b.h = h]
+Expand(c, nd, m) == CASE m.what = "Add" -> AddSteps(nd, m.b)
+                      [] m.what = "ResetTo" -> ResetSteps(nd, m.to)
+                      [] m.what = "FastSync" -> FastSyncSteps(nd, BlkFn(c), m.b.h)
+RECURSIVE RunMacros(_, _, _, _, _)
+RunMacros(c, nd, ms, w, cr) ==
     IF ms = <<>> \/ nd.ph # "idle" THEN [n |-> nd, w |-> w]
-    ELSE LET r == RunX(Begin(nd, Expand(nd, Head(ms))), w, cr) IN RunMacros(r.n, Tail(ms), r.w, cr)
+    ELSE LET r == RunX(Begin(nd, Expand(c, nd, Head(ms))), w, cr) IN RunMacros(c, r.n, Tail(ms), r.w, cr)
 
 CrashSpec(c, i, phase) ==
     IF i > Len(c.crashes) \/ c.crashes[i].ph # phase THEN NoCrash
@@ -132,12 +156,21 @@ TWrite == /\ Ev("W")
           /\ pend' = Append(pend, Trace[l].k)
           /\ UNCHANGED <<ctx, mn, ph, plan, apps, win, clean, ci, bad, drift>>
 
-(* prediction of the current phase by the specification *)
-Predicted == IF ph = "op" THEN RunMacros(mn, ctx.ops, <<>>, CrashSpec(ctx, ci, "op"))
-             ELSE IF ph = "rec" THEN RunX(BootOf(mn), <<>>, CrashSpec(ctx, ci, "rec"))
-             ELSE RunMacros(mn, plan, <<>>, CrashSpec(ctx, ci, "cont"))
+(* prediction of the current phase by the specification; cr = where the process died (NoCrash when *)
+(* the phase ran to its end), taken from the observation: the kind of the lost write and how many   *)
+(* writes of that kind the phase had completed                                                      *)
+PredictedWith(cr) == IF ph = "op" THEN RunMacros(ctx, mn, ctx.ops, <<>>, cr)
+                     ELSE IF ph = "rec" THEN RunX(BootOf(mn), <<>>, cr)
+                     ELSE RunMacros(ctx, mn, plan, <<>>, cr)
+Predicted == PredictedWith(NoCrash)
 
-KindsAgree(p) == p.w = pend
+(* copying / deleting a whole database is ONE step of the specification and many writes of the code: *)
+(* runs of the bulk kinds are compared as one                                                      *)
+Bulk == {"PCopy", "DropOld"}
+RECURSIVE Squeeze(_)
+Squeeze(w) == IF Len(w) <= 1 THEN w
+              ELSE IF w[1] \in Bulk /\ w[2] = w[1] THEN Squeeze(Tail(w)) ELSE <<w[1]>> \o Squeeze(Tail(w))
+KindsAgree(p) == Squeeze(p.w) = Squeeze(pend)
 
 TOpEnd == /\ Ev("OpEnd") /\ ph = "op"
           /\ LET e == Trace[l]
@@ -146,22 +179,24 @@ TOpEnd == /\ Ev("OpEnd") /\ ph = "op"
                  d2 == IF StoreAgrees(st, e.obs) THEN 0 ELSE 1
                  d3 == IF (p.n.ph = "idle") = e.ok THEN 0 ELSE 1 IN
              /\ drift' = drift + d1 + d2 + d3
-             /\ (IF d1 = 0 THEN TRUE ELSE Drift(l, <<"write kinds of the operation", pend, p.w>>))
-             /\ (IF d2 = 0 THEN TRUE ELSE Drift(l, "tracked store differs from the observed store after the operation"))
+             /\ (IF d1 = 0 THEN TRUE ELSE Drift(l, <<"write kinds of the operation", Squeeze(pend), Squeeze(p.w)>>))
+             /\ (IF d2 = 0 THEN TRUE ELSE Drift(l, <<"tracked store differs from the observed store after the operation", StoreDiff(st, e.obs)>>))
              /\ (IF d3 = 0 THEN TRUE ELSE Drift(l, "outcome of the operation differs from the prediction"))
              /\ bad' = IF e.ok THEN bad ELSE bad \cup {"OperationAccepted"}
              /\ (IF e.ok THEN TRUE ELSE Note(l, "OperationAccepted"))
              /\ clean' = e.obs
-             /\ mn' = ObsNode(ctx, e.obs, DOMAIN st.sv, DOMAIN st.iv)
+             /\ mn' = WithHidden(ObsNode(ctx, e.obs, DOMAIN st.sv, DOMAIN st.iv), st)
              /\ ph' = "cont" /\ pend' = <<>>
           /\ UNCHANGED <<ctx, st, plan, apps, win, ci>>
 
 TCrash == /\ Ev("Crash")
           /\ LET e == Trace[l]
-                 p == Predicted
-                 d1 == IF e.clean \/ (KindsAgree(p) /\ p.n.ph = "down") THEN 0 ELSE 1 IN
+                 p == PredictedWith(IF e.clean THEN NoCrash ELSE AtKind(e.lost, CountOf(pend, e.lost) + 1))
+                 \* died in the middle of a bulk copy / deletion: not a step boundary of the specification
+                 midBulk == e.lost \in Bulk /\ pend # <<>> /\ pend[Len(pend)] = e.lost
+                 d1 == IF e.clean \/ midBulk \/ (KindsAgree(p) /\ p.n.ph = "down") THEN 0 ELSE 1 IN
              /\ drift' = drift + d1
-             /\ (IF d1 = 0 THEN TRUE ELSE Drift(l, <<"write kinds up to the crash", e.ph, pend, p.w, p.n.ph>>))
+             /\ (IF d1 = 0 THEN TRUE ELSE Drift(l, <<"write kinds up to the crash", e.ph, Squeeze(pend), Squeeze(p.w), p.n.ph>>))
              /\ win' = IF e.clean THEN [lo |-> clean.head.h, hi |-> clean.head.h]
                        ELSE IF e.ph = "op" THEN win
                        ELSE [lo |-> win.lo, hi |-> IF ctx.end > win.hi THEN ctx.end ELSE win.hi]
@@ -176,7 +211,7 @@ SameObservables(a, b) == /\ a.head = b.head /\ a.dhead = b.dhead /\ a.lives = b.
 TRestart == /\ Ev("Restart") /\ ph = "rec"
             /\ LET e == Trace[l]
                    p == Predicted
-                   on == IF e.ok THEN ObsNode(ctx, e.obs, DOMAIN st.sv, DOMAIN st.iv)
+                   on == IF e.ok THEN WithHidden(ObsNode(ctx, e.obs, DOMAIN st.sv, DOMAIN st.iv), st)
                          ELSE [Down(st) EXCEPT !.ph = "failed"]
                    broken == RestartClauses(on, win.lo, win.hi, KnownIds(ctx))
                              \cup (IF e.ok /\ clean # NoObs /\ ~SameObservables(clean, e.obs) THEN {"CleanRestartStutter"} ELSE {})
@@ -187,7 +222,7 @@ TRestart == /\ Ev("Restart") /\ ph = "rec"
                /\ NoteAll(l, broken)
                /\ drift' = drift + d1 + d2 + d3
                /\ (IF d1 = 0 THEN TRUE ELSE Drift(l, <<"write kinds of the start-up sequence", pend, p.w>>))
-               /\ (IF d2 = 0 THEN TRUE ELSE Drift(l, "tracked store differs from the observed store after start-up"))
+               /\ (IF d2 = 0 THEN TRUE ELSE Drift(l, <<"tracked store differs from the observed store after start-up", StoreDiff(st, e.obs)>>))
                /\ (IF d3 = 0 THEN TRUE ELSE Drift(l, <<"start-up outcome differs from the prediction", p.n.ph, p.n.mhead.id>>))
                /\ mn' = on
                /\ win' = IF e.ok THEN [lo |-> LowestRetained(e.obs), hi |-> ctx.end] ELSE win
@@ -222,9 +257,9 @@ TFinal == /\ Ev("Final")
              /\ bad' = bad \cup broken
              /\ NoteAll(l, broken)
              /\ drift' = drift + d1 + d2 + d3
-             /\ (IF d1 = 0 THEN TRUE ELSE Drift(l, <<"write kinds of the continuation", pend, p.w>>))
+             /\ (IF d1 = 0 THEN TRUE ELSE Drift(l, <<"write kinds of the continuation", Squeeze(pend), Squeeze(p.w), p.n.ph, p.n.why>>))
              /\ (IF d2 = 0 THEN TRUE ELSE Drift(l, <<"outcome of the continuation differs from the prediction", p.n.ph, p.n.why>>))
-             /\ (IF d3 = 0 THEN TRUE ELSE Drift(l, "tracked store differs from the observed store at the end"))
+             /\ (IF d3 = 0 THEN TRUE ELSE Drift(l, <<"tracked store differs from the observed store at the end", StoreDiff(st, e.obs)>>))
              /\ TLCSet(2, drift')
           /\ ph' = "op" /\ pend' = <<>> /\ plan' = <<>> /\ apps' = <<>>
           /\ UNCHANGED <<ctx, st, mn, win, clean, ci>>
